@@ -2756,8 +2756,7 @@ let table =
     e_reach = Slot; e_ret = TBool; e_params =
     (true :: (true :: (false :: []))); e_self = (Some O); e_slots = (S O);
     e_parsed = true; e_prelude = ((Guard (GAssert, (O :: []),
-    RvFalse)) :: ((Guard (GRequire, ((S O) :: []),
-    RvFalse)) :: (Body :: []))) } :: ({ e_name =
+    RvFalse)) :: (Body :: [])) } :: ({ e_name =
     (X73 :: (X70 :: (X69 :: (X66 :: (X5f :: (X61 :: (X72 :: (X72 :: (X61 :: (X79 :: (X5f :: (X69 :: (X74 :: (X65 :: (X72 :: (X61 :: (X74 :: (X6f :: (X72 :: [])))))))))))))))))));
     e_reach = Slot; e_ret = TPtr; e_params = (true :: []); e_self = (Some O);
     e_slots = (S (S (S O))); e_parsed = true; e_prelude = ((Guard (GAssert,
@@ -3546,7 +3545,9 @@ let table =
     (X73 :: (X70 :: (X69 :: (X66 :: (X63 :: (X6f :: (X6e :: (X66 :: (X5f :: (X72 :: (X65 :: (X67 :: (X69 :: (X73 :: (X74 :: (X65 :: (X72 :: (X5f :: (X66 :: (X73 :: (X74 :: (X61 :: (X74 :: (X65 :: []))))))))))))))))))))))));
     e_reach = Exported; e_ret = TInt; e_params =
     (true :: (true :: (true :: (false :: (false :: []))))); e_self = None;
-    e_slots = O; e_parsed = true; e_prelude = (Body :: []) } :: ({ e_name =
+    e_slots = O; e_parsed = true; e_prelude = ((Guard (GAssert, (O :: []),
+    RvNeg1)) :: ((Guard (GAssert, ((S O) :: []),
+    RvNeg1)) :: (Body :: []))) } :: ({ e_name =
     (X73 :: (X70 :: (X69 :: (X66 :: (X63 :: (X6f :: (X6e :: (X66 :: (X5f :: (X72 :: (X65 :: (X67 :: (X69 :: (X73 :: (X74 :: (X65 :: (X72 :: (X5f :: (X62 :: (X75 :: (X69 :: (X6c :: (X74 :: (X69 :: (X6e :: [])))))))))))))))))))))))));
     e_reach = Exported; e_ret = TInt; e_params = (true :: (true :: []));
     e_self = None; e_slots = O; e_parsed = true; e_prelude = ((Guard
@@ -4193,4 +4194,4 @@ let exempt =
 (** val table_digest : fname **)
 
 let table_digest =
-  X37 :: (X33 :: (X36 :: (X37 :: (X62 :: (X32 :: (X37 :: (X39 :: (X65 :: (X39 :: (X32 :: (X66 :: (X64 :: (X32 :: (X30 :: (X61 :: [])))))))))))))))
+  X36 :: (X32 :: (X33 :: (X35 :: (X65 :: (X63 :: (X62 :: (X62 :: (X61 :: (X34 :: (X36 :: (X36 :: (X65 :: (X63 :: (X33 :: (X31 :: [])))))))))))))))
